@@ -376,7 +376,9 @@ def function_parameters(chk, repo, gen, TF):
     for ch in sorted(kept):
         if ch in codepage and not (ch.isalnum() or ch == "_"):
             cands.append(("name", "a" + ch + "b"))
-    cands += [("name", ""), ("name", "ab"), ("numeric", "12"), ("star", "*")]
+    cands += [("name", ""), ("name", "ab"), ("numeric", "12"), ("star", "*"),
+              ("numeric", "0"), ("numeric", "00"), ("numeric", "02"),
+              ("numeric", "007")]
     for kind, p in cands:
         cons = f"FunctionDef/parameter/{kind}"
         try:
